@@ -13,9 +13,26 @@ void *memcpy(void *dst, const void *src, size_t n) {
     for (size_t i = 0; i < n; ++i) d[i] = s[i];
     return dst;
 }
-void *memset(void *dst, int c, size_t n) {
+void *memmove(void *dst, const void *src, size_t n) {
+    const uint8_t *s = src;
     uint8_t *d = dst;
-    for (size_t i = 0; i < n; ++i) d[i] = (uint8_t)c;
+    if (n == 0) return dst;
+    if (__CPROVER_same_object(d, s) && d > s) {
+        for (size_t i = n; i > 0; --i) d[i - 1] = s[i - 1];
+    } else {
+        for (size_t i = 0; i < n; ++i) d[i] = s[i];
+    }
     return dst;
+}
+void *memset(void *s, int c, size_t n) {
+__CPROVER_HIDE:;
+    if (n == 0) return s;
+    __CPROVER_precondition(__CPROVER_w_ok(s, n), "memset destination region writeable");
+    char *sp = s;
+    __CPROVER_size_t s_n = n;
+    char arr[s_n];
+    __CPROVER_array_set(arr, c);
+    __CPROVER_array_replace(sp, arr);
+    return s;
 }
 #endif
